@@ -677,6 +677,21 @@ def hints_module_owner(prog: Program, rep: Report, rule: str):
     is_eval = lambda y: T.is_call_to(y, "typing.get_type_hints") and y[2] and T.contains(y[2][0], carrier)  # noqa: E731
     # ... and what it yields is what gets stored for a parameter (not merely computed)
     evaluated = any(e[0] == "setitem" and T.contains(e[3], is_eval) for p in P.paths_of(prog, hs) for e in p.events) or any(p.exit[0] == "return" and T.contains(p.exit[1], is_eval) for p in P.paths_of(prog, hs))
+    # ... also for an annotation that is an *object* (where the annotation is known not to be a str, what is stored is the evaluated hint)
+    def _is_str_test(a):
+        return (a[0] == "cmp" and a[1] in ("is", "==") and any(y == ("ref", "builtins.str") for y in a[2:4]) and any(y[0] == "attr" and y[2] == "__class__" for y in a[2:4])) or (T.is_call_to(a, "builtins.isinstance") and len(a[2]) == 2 and a[2][1] == ("ref", "builtins.str"))
+
+    for p in P.paths_of(prog, hs):
+        atoms_ = T.derive_atoms(p.guards())
+        if not any((not val) and _is_str_test(a) for a, val in atoms_):
+            continue
+        if any(val and a[0] == "cmp" and a[1] == "is" and T.contains(a, lambda y: y[0] in ("attr", "ref") and (y[2] if y[0] == "attr" else y[1]).endswith("empty")) for a, val in atoms_):
+            continue  # an unannotated parameter
+        if any(e[0] in ("caught", "suppressed") for e in p.events):
+            continue  # (the evaluation itself failed: the raw annotations are all there is)
+        stores = [e for e in p.events if e[0] == "setitem"]
+        if stores and not T.contains(stores[-1][3], is_eval):
+            evaluated = False
     # the carrier is the constructor *for a class* and the object itself otherwise (not the other way round), and the evaluated
     # hint is fetched under the parameter's name, the raw annotation being the fallback
     def fold_class(tm, is_class):
